@@ -119,7 +119,7 @@ func runEdits(rep *Report, sigPrefix string, d editDesc, fresh func() (interface
 }
 
 func allCurvesGroth16(o *Opts, rep *Report) {
-	specs := map[string]bool{"cubic": true, "commit2-independent": true}
+	specs := map[string]bool{"cubic": true, "commit1": true, "commit2-independent": true}
 	for _, id := range curvesFor(o) {
 		for _, sp := range g16Specs() {
 			if !specs[sp.name] {
@@ -170,7 +170,7 @@ func allCurvesGroth16(o *Opts, rep *Report) {
 }
 
 func allCurvesPlonk(o *Opts, rep *Report) {
-	specs := map[string]bool{"cubic": true, "commit2-independent": true}
+	specs := map[string]bool{"cubic": true, "commit1": true, "commit2-independent": true}
 	for _, id := range curvesFor(o) {
 		for _, sp := range g16Specs() {
 			if !specs[sp.name] {
